@@ -152,6 +152,11 @@ class P:
              [("H", "cat <<E\nbody\nE\n"), (" H", " cat <<E\nbody\nE\n"), ("x=1 H", "x=1 cat <<E\nbody\nE\n"), ("a | H", "a | cat <<E\nbody\nE\n"),
               ("  HT", "  cat <<-E\n\tfoo\n\tE\n"), ("   HX", "   cat <<E\n$x `y`\nz\\\nE\nE\n"), ("{ H }", "{ cat <<E\nbody\nE\n }"), ("\tH2", "\tcat <<A <<'B'\n1\nA\n$2\nB\n"),
               ("if H then :; fi", "if cat <<E\nbody\nE\nthen :; fi")]),
+            # after an assignment or redirection prefix the command name is an ordinary word, also when the alias value begins
+            # with a reserved word
+            ({"a": "if x", "b": "{ y", "c": "! z", "d": "then", "e": "done q", "k": "a w"},
+             [("x=1 a", "x=1 if x"), (">f b", ">f { y"), ("x=1 c", "x=1 ! z"), ("2>&1 d", "2>&1 then"), ("x=1 e r", "x=1 done q r"), ("x=1 k", "x=1 if x w"),
+              ("y=2 >g a; z", "y=2 >g if x; z")]),
             ({"W": "while ", "T": "true", "I": "if ", "TH": "then ", "E": "echo hi"},
              [("W T; do T; done", "while true; do true; done"), ("I T; TH E; fi", "if true; then echo hi; fi"), ("I T; then E; fi", "if true; then echo hi; fi")]),
         ):
